@@ -472,6 +472,64 @@ pub fn c14(thorough: bool, seed: u64) -> CheckOutput {
         |a, b| a.merge(b),
     );
     acc.merge(novel_acc);
+    // generate() WITHOUT a seed (entropy from the operating system): the only entry point the
+    // other blocks never take, because its output cannot be compared with anything. Its memory
+    // can: 3 000 unseeded generations on one thread, every generator dropped, live heap read after
+    // 100 / 400 / 1 200 / 3 000 of them.
+    let unseeded_acc = par_run(
+        1,
+        Acc::new,
+        |_i, acc| {
+            let mut k = 0usize;
+            let mut stage = |n: usize| {
+                for _ in 0..n {
+                    k += 1;
+                    let cfg = Config {
+                        min: 5,
+                        max: 30 + k % 40,
+                        mutators: if k % 2 == 0 { ALL_MK.to_vec() } else { vec![] },
+                        unsafe_mut: k % 4 == 0,
+                        order: (k % 5) as u8,
+                        ..Config::default_for((k % 6) as u8, Entropy::Seed(0))
+                    };
+                    let mut g = cfg.build();
+                    g.seed = None;
+                    let out = g.generate();
+                    drop(out);
+                    if k % 3 == 0 {
+                        g.reset();
+                        let out = g.generate();
+                        drop(out);
+                    }
+                    drop(g);
+                }
+            };
+            acc.evaluations += 1;
+            stage(100);
+            let l0 = live();
+            stage(300);
+            let l1 = live();
+            stage(800);
+            let l2 = live();
+            stage(1800);
+            let l3 = live();
+            acc.count("unseeded_generations", 4000);
+            if l1.0 > l0.0 && l2.0 > l1.0 && l3.0 > l2.0 && l3.0 - l0.0 >= 1024 {
+                let msg = format!(
+                    "live heap of the generating thread keeps growing with the number of UNSEEDED generate() calls although every generator is dropped: {} bytes after 100 generators, {} after 400, {} after 1200, {} after 3000",
+                    l0.0, l1.0, l2.0, l3.0
+                );
+                acc.violate(Violation {
+                    property: "C14".into(),
+                    signature: "C14:unbounded_growth:unseeded".into(),
+                    message: msg.clone(),
+                    replay: json!({"kind": "c14-growth", "property": "C14", "seed": seed, "live_bytes": [l0.0, l1.0, l2.0, l3.0], "message": msg}),
+                });
+            }
+        },
+        |a, b| a.merge(b),
+    );
+    acc.merge(unseeded_acc);
     let cyc = acc.get("analysed_outputs_with_identity_cycle") + acc.get("steered_outputs_with_identity_cycle");
     if cyc < 20 {
         acc.inconclusive.push(format!("only {} analysed outputs contained an identity cycle (the leak-prone pattern)", cyc));
